@@ -703,6 +703,14 @@ def rank_replays(nproc, walks):
     return results
 
 
+def same_report(a, b, fit):
+    """two processes report exactly the same solution (and held the same values of the non-fitted parameters)"""
+    free = [k for k in ses.FIT_ALL if k not in ses.SELS[fit['exp']['fitted']]]
+    if any(a.get('fixed', {}).get(k) != b.get('fixed', {}).get(k) for k in free):
+        return False
+    return not ses.diff_projection({k: v for k, v in a.items() if k != 'fixed'}, {k: v for k, v in b.items() if k != 'fixed'})
+
+
 def step_classes(walk):
     """for every fit of the walk: what changed since the previous fit (first / refit / obs / sel / der, joined by +)."""
     out, since, first = [], [], True
@@ -752,8 +760,12 @@ def run_sessions(ctx, rng, events):
                         if fi >= len(projs):
                             break           # the walk ended at a fit that raised (already reported)
                         cls = '%s:after-%s%s' % (base, classes[fi], '' if j['init'][0] else ':built-without-observation')
-                        judge_fit(ctx, twin, j['sampler'], projs[fi], fit, cls, dict(vector, rank=rank, fit=fi), events)
                         nfit += 1
+                        if rank and fi < len(per_rank[0]) and 'error' not in projs[fi] and same_report(per_rank[0][fi], projs[fi], fit):
+                            # this process reports exactly what process 0 reports (judged above)
+                            ctx.verdict('ranks_report_the_same', True, cls=cls, vector=dict(vector, rank=rank, fit=fi))
+                            continue
+                        judge_fit(ctx, twin, j['sampler'], projs[fi], fit, cls, dict(vector, rank=rank, fit=fi), events)
     finally:
         shutil.rmtree(tmpdir, ignore_errors=True)
         try:
@@ -791,7 +803,7 @@ def run(ctx):
         'MultiNest: mean / MAP are the sampler\'s own statistics (pass-through by index is what is checked)',
         'PolyChord summary part not covered (file layout not reproducible offline)',
         'oracle for spectra / profiles / derived traces: a second model instance driven through model[param] = value']
-    ctx.check_spec('exhaustive-1d', 'MC_Posterior', 'MC_Posterior_1d_%s.cfg' % ctx.tier)
+    ctx.check_spec('exhaustive-1d', 'MC_Posterior', 'MC_Posterior_1d_%s.cfg' % ctx.tier, workers=8 if q else 16)
     ctx.check_spec('exhaustive-2d', 'MC_Posterior', 'MC_Posterior_2d_%s.cfg' % ctx.tier, need_actions=('Summarise',))
     ctx.exhaustive = True
     ctx.expect_refuted('median-is-not-a-sample', 'MC_Posterior', 'MC_Posterior_refute.cfg', 'MedianIsASample')
